@@ -102,7 +102,7 @@ int Entry::Rename(const char* new_name, unsigned flags)
   if (D != NULL)
     ret = gd_rename(D->D, E.field, new_name, flags);
 
-  if (ret) {
+  if (D == NULL || !ret) {
     if (E.field == NULL) {
       E.field = strdup(new_name);
     } else {
